@@ -493,6 +493,12 @@ class HostInterp:
             if pf is not None and not pf.node.decorator_list:
                 # a top-level function of another module of the package (a class's methods run in their own module)
                 return Closure(pf.node, {})
+            if _od.PACKAGE is not None:
+                pcs = [c_ for c_ in _od.PACKAGE.all_classes() if c_.name == e.id and getattr(c_, "parent_func", None) is None]
+                if len(pcs) == 1:
+                    # a class of the package the interpreted code instantiates: its methods are interpreted
+                    self.classes[e.id] = _od.PACKAGE.raw_methods(pcs[0])
+                    return ("class", e.id)
             c = _package_constant(e.id)
             if c is not None:
                 # a module-level constant of the package (a precompiled regexp, a tuple of names, a table)
